@@ -311,3 +311,38 @@ theorem flow_gaussian_all (a bc : Desc) (n : Nat) :
     flow_eval hr
 
 end Mahotas.C09
+
+namespace Mahotas.C09
+open Mahotas
+
+/-- every input buffer `< k` except `i` still holds its call-time content -/
+def intactBut (s : St) (i : Nat) : Nat → Prop
+  | 0 => True
+  | k + 1 => (k ≠ i → s.val k = .inp k) ∧ intactBut s i k
+
+/-- **"`out` may be input buffer `i` itself"** for a buffer-flow program `P` over `inputs` whose result without `out`
+has the symbolic content `V`: called with `out` = buffer `i` (no separate out buffer on the heap), `P` returns **that
+buffer**, it then holds `V` — exactly what the call without `out` returns, computed from the call-time contents of all
+inputs, nothing read after it was overwritten (no `undef` inside) — and every other input is intact. -/
+def AliasSafe (inputs : List Desc) (i : Nat) (P : Option Nat → St → R Nat) (V : Val) : Prop :=
+  (P none (initSt inputs none)).retVal = some V ∧
+  (P (some i) (initSt inputs none)).ret = some i ∧
+  (P (some i) (initSt inputs none)).st.val i = V ∧
+  intactBut (P (some i) (initSt inputs none)).st i inputs.length
+
+/-- evaluation of the round-4 (guarded) programs -/
+macro "flowG_eval" extra:(Lean.Parser.Tactic.simpLemma),* : tactic => `(tactic|
+  simp [kernel1G, unalias, unaliasOpt, kernelWrite, readWhile, openGP, closeGP, cerodeGP, submGP, tophatCloseGP, tophatOpenGP, inplaceP,
+    getOut, initSt, St.desc, St.val, R.bind, alloc, write, List.zipIdx, R.ret, R.retVal, R.st, R.exc, intact, expectedDtype,
+    getOutput_array_contig, AliasSafe, intactBut, $extra,*])
+
+macro "honoursG_tac" arr:term "," dt:term : tactic => `(tactic|
+  (refine ⟨?_, fun o => ⟨fun h => ?_, fun h => ?_⟩⟩
+   · flowG_eval getOutput
+   · obtain ⟨h1, h2, h3⟩ := h
+     simp only [expectedDtype] at h1
+     flowG_eval getOutput, h1, h2, h3
+   · obtain ⟨r, hr⟩ := getOutput_reject_of_not $arr o $dt h
+     flowG_eval hr))
+
+end Mahotas.C09
